@@ -26,7 +26,7 @@ reg('C05', 'exploration',
     TRUST + " ('A', value) two-element form; thresholds never equal an attained value (docs say below, code says <=).",
     'runtime contract with snapshot (icontract) + executable model, exhaustive small scope', '4/C05')
 reg('C11', 'exploration',
-    'Online snapshot/post-condition on every Fitter.fit (source object and fitter state bit-identical before/after) plus metamorphic pairs compared per model name: filter permutations (all 720 of 6 filters in thorough), model-row permutations, flux scaling over 8 decades (scale shifts by -0.5 log10 c), fit histories (all orderings of <=4 preceding fits, sampled 6) bit-identical to a fresh fitter.',
+    'Online snapshot/post-condition on every Fitter.fit (the source object must be bit-identical before/after; a change of fitter state is only recorded) plus metamorphic pairs compared per model name incl. the predicted model fluxes: filter permutations (all 720 of 6 filters in thorough; also with remove_resolved), model-row permutations, flux scaling over 8 decades (scale shifts by -0.5 log10 c), fit histories (all orderings of <=4 preceding fits, sampled 6; per-file, cube/memmap and remove_resolved packages; a second live fitter used in between; sources with the same flags but other errors) bit-identical to a fresh fitter.',
     TRUST + ' Filter permutations re-associate sums: 1e-9/cond on parameters.',
     'snapshot contract + metamorphic history/permutation pairs', '4/C11')
 reg('C12', 'exploration',
@@ -34,7 +34,7 @@ reg('C12', 'exploration',
     TRUST + ' SED files materialise one dummy aperture by design.',
     'round-trip monitor with position-encoding values + reader post-conditions; configuration matrix enumerated', '4/C12')
 reg('C14', 'exploration',
-    'Post-condition contract on Extinction.get_av against an independent python interpolation (-0.4 chi/chi_V, 0 outside, -0.4 at V within 4 ulp), invariance pairs (chi x c over 16 decades, 5 wavelength units x 2 opacity units), refusals of non-length queries, round trips through pickle, table and the text-file reader with every column pair.',
+    'Post-condition contract on Extinction.get_av against an independent python interpolation (-0.4 chi/chi_V, 0 outside, -0.4 at V within 4 ulp), invariance pairs (chi x c over 16 decades, 5 wavelength units x 2 opacity units), scalar queries, V on a node, tables re-assigned on a live object, round trips through pickle, table and the text-file reader with every column pair (pattern compared with a derived interpolation tolerance; refusal of non-length queries only recorded).',
     TRUST + ' Queries within 1e-12 relative of a table end are a don\'t-care; tables must increase and cover V.',
     'runtime contract + reference interpolation + invariance pairs', '4/C14')
 reg('C15', 'exploration',
@@ -67,22 +67,22 @@ reg('C10', 'exploration',
     TRUST + ' filter_output not driven on records with zero fits; plot_params only in thorough.',
     'event-trace recording + offline trace checker; snapshot comparison of passed objects', '4/C10')
 reg('C13', 'exploration',
-    'snapshot+post-condition contracts on ConvolvedFluxes.interpolate, SED.interpolate and SED.interpolate_variable against a python bisect interpolation (exact at knots, linear between, clamp above, identity untouched, table not modified); refusals below the table observed at the call boundary; requests in au/pc/cm and bare AU numbers against tables stored in au or cm.',
+    'snapshot+post-condition contracts on ConvolvedFluxes.interpolate, SED.interpolate and SED.interpolate_variable against a python bisect interpolation (exact at knots, linear between, clamp above, identity untouched; the same request gives the same answer later; table re-assigned / re-sorted between calls; tables without apertures or errors); refusals below the table observed at the call boundary; requests in au/pc/cm and bare AU numbers against tables stored in au or cm.',
     TRUST + ' Smallest knot requested only in the table\'s own unit; 0.999*a_max clamp band for the plotting variant.',
     'runtime contracts with snapshots + reference interpolation', '4/C13')
 reg('C16', 'exploration',
-    'File-effect trace (audit hook) and contents of convolved/MOnnn.fits plus the returned table for every window (ends below/on/between/above tabulated wavelengths) x every chunk size (via max_ram), exhaustive for n_wav<=3 (quick) / <=5 (thorough); file set must be identical across chunk sizes; cube packages: a wavelength "filter" selects the nearest tabulated slice.',
+    'Files present afterwards (identified by FILTWAV, not by name), their contents and the returned table for every window (ends below/on/between/above tabulated wavelengths) x every chunk size (via max_ram), exhaustive for n_wav<=3 (quick) / <=5 (thorough); file set must be identical across chunk sizes; windows also in nm/mm/Angstrom, pre-existing convolved/, SEDs in sub-directories; cube packages (with/without uncertainties, aperture-independent and -dependent, named and wavelength filters mixed): a wavelength "filter" selects the nearest tabulated slice.',
     TRUST + ' Window end on a wavelength: either; empty window: zero files, empty table or exception.',
     'file-effect trace + content oracle, exhaustive small scope over windows x chunk sizes', '4/C16')
 reg('C17', 'exploration',
-    'The LineCollection returned by plot(output_dir=None) is checked for every display mode, object and file input: curve count = selected fits x apertures shown, best fit last, and at each fitted wavelength the curve for that filter\'s aperture passes through the stored prediction and through the value recomputed from package truth (aperture interpolation, d^-2, reddening); generators guarantee that any wrong A_V/scale/aperture moves the curve by >=2% (tolerance 5e-4).',
-    TRUST + ' KPC constant offset 2.089e-4 accepted; 0.999*a_max clamp band in the default mode.',
+    'The LineCollection returned by plot(output_dir=None) is checked for every display mode, object and file input: curve count = selected fits x apertures shown, best fit last, and inside each fit\'s block a one-to-one assignment of curves to the shown apertures must exist such that at each fitted wavelength the curve for that filter\'s aperture passes through the stored prediction and through the value recomputed from package truth (aperture interpolation, d^-2, reddening); filters sharing an aperture and >=12 distinct apertures included; generators guarantee that any wrong A_V/scale/aperture moves the curve by >=2% (tolerance 1.2e-3).',
+    TRUST + ' Rounded physical constants (KPC offset 2.089e-4, c to 7e-4) accepted; 0.999*a_max clamp band in the default mode.',
     'output-boundary monitor with truth oracle', '4/C17')
 reg('C18', 'exploration',
-    'Trace checking of filter_output: pre-condition probe on FitInfoFile.write records (writer, source) events, audit-hook trace shows exactly the two output files, records read back from both outputs; offline: partition of the input, bit-identical records, order preserved, good <=> best chi^2 (per fitted point) below the threshold; chi/cpd, auto/explicit names, file/list input, NaN/inf/tied best values.',
+    'Trace checking of filter_output: audit-hook trace of files produced (records in a third file are a violation; a missing output holds no records), records and metadata read back from both outputs; offline: partition of the input, bit-identical records, same fit set-up, order preserved, good <=> best chi^2 (per fitted point, flags 1 and 4 counted by the harness) below the threshold; chi/cpd, auto/explicit/mixed names, file/list input, n_data=1, NaN/inf/tied best values, NaN-suffix records.',
     TRUST + ' Thresholds never equal an attained value; every record has a best fit.',
     'event trace + offline conservation/partition checker', '4/C18')
 reg('C19', 'fault_enumeration',
-    'Every truncation offset of fit output files written by the real fit() (1..4 records, with/without predicted fluxes) is read back: yielded records must be a bit-identical prefix of the complete records located with plain pickle, then a clean end or an exception. Writer-side faults: ENOSPC after N bytes through a proxy handle (bytes on disk must be a prefix), SIGKILL of a fit() process, and an strace of the output fd (sequential write()s only) in the thorough tier.',
+    'Every truncation offset of fit output files written by the real fit() (1..4 records, with/without predicted fluxes) is read back: yielded records must be a bit-identical prefix of the complete records (record ends observed at the FitInfoFile.write boundary, no layout knowledge), then a clean end or an exception; records from a few hundred bytes to tens of kB. Writer-side faults: ENOSPC after N bytes through a proxy handle (also over an existing longer file and over an earlier run of the same job; INCONCLUSIVE if the fault was never injected), SIGKILL of a fit() process, and an strace of the output fd (sequential write()s only) in the thorough tier.',
     TRUST + ' A crash leaves a byte prefix (supported by the strace observation).',
     'fault injection (truncation enumeration, ENOSPC proxy, SIGKILL, strace) + prefix oracle', '4/C19')
